@@ -38,96 +38,107 @@ pub fn any_field(len: u16) -> TemplateField {
     TemplateField { field_type_number: n, field_type: IPFixField::from(n), field_length: len, enterprise_number: None }
 }
 
-/// S/T: template set (id 2) carrying ONE record of <= 2 field specifiers (plain or
-/// enterprise) and <= 3 padding bytes, against a symbolic one-entry cache.
-/// (More than one record per set is the known finding C05-multi-record-template-set;
-/// a record cut short by the set length is C06-ipfix-truncated-template-cached.)
-#[kani::proof]
-#[kani::stub(core::fmt::write, no_fmt)]
-fn s_ipfix_template() {
-    const B: usize = 20; // 4 + 8 + 8
-    const N: usize = 4 + B + 1;
-    let mut p = IPFixParser::default();
-    let c0: u16 = kani::any();
-    let cf = any_field(kani::any());
-    let cf_copy = cf.clone();
-    p.templates.insert(c0, Template { template_id: c0, field_count: 1, fields: vec![cf], padding: vec![] });
-    let mut buf: [u8; N] = kani::any();
-    buf[0] = 0;
-    buf[1] = 2;
-    let len = be16(&buf, 2);
-    kani::assume(len >= 8 && (len as usize) <= N - 1);
-    let body = (len - 4) as usize;
-    let fc = be16(&buf, 6) as usize;
-    kani::assume(fc <= 2);
-    // reference record length
-    let mut rl = 4;
-    let mut o = [0usize; 2];
-    let mut j = 0;
-    while j < 2 {
-        if j < fc {
-            o[j] = 4 + rl;
-            rl += if buf[4 + rl] >= 128 { 8 } else { 4 };
-        }
-        j += 1;
-    }
-    kani::assume(rl <= body && body - rl < 4); // one complete record + padding shorter than a record
-    let tid = be16(&buf, 4);
-    let valid = (fc >= 1 && be16(&buf, o[0] + 2) > 0) || (fc >= 2 && be16(&buf, o[1] + 2) > 0);
-    let r = FlowSet::parse(&buf, &mut p);
-    match &r {
-        Ok((rem, fs)) => {
-            assert!(valid);
-            assert!(rem.len() == N - 4 - body);
-            assert!(fs.header.header_id == 2 && fs.header.length == len);
-            match &fs.body {
-                FlowSetBody::Template(t) => {
-                    assert!(t.template_id == tid);
-                    assert!(t.field_count as usize == fc);
-                    assert!(t.fields.len() == fc);
-                    if fc >= 1 {
-                        assert!(field_matches(&t.fields[0], &buf, o[0]));
-                    }
-                    if fc >= 2 {
-                        assert!(field_matches(&t.fields[1], &buf, o[1]));
-                    }
-                    assert!(t.padding.len() == body - rl);
-                    let pi: usize = kani::any();
-                    if pi < body - rl {
-                        assert!(t.padding[pi] == buf[4 + rl + pi]);
-                    }
-                    // cache: new definition replaces / is added; the other entry is untouched
-                    let ct = p.templates.get(&tid).unwrap();
-                    assert!(*ct == *t);
-                    if c0 != tid {
-                        let old = p.templates.get(&c0).unwrap();
-                        assert!(old.template_id == c0 && old.fields.len() == 1 && old.fields[0] == cf_copy);
-                        assert!(p.templates.len() == 2);
-                    } else {
-                        assert!(p.templates.len() == 1);
-                    }
-                    kani::cover!(fc == 2 && t.fields[0].enterprise_number.is_some() && t.fields[1].enterprise_number.is_none());
-                    kani::cover!(fc == 1 && body - rl == 3);
-                    kani::cover!(c0 == tid);
+/// S/T: template set (id 2) carrying ONE record, one harness per *shape*: field count, which
+/// specifiers are enterprise-specific (E bit) and the padding length are written; template
+/// id, ie ids, field lengths, enterprise numbers, padding bytes and the cached entry are
+/// symbolic.  (More than one record per set is the known finding
+/// C05-multi-record-template-set; a record cut short by the set length is
+/// C06-ipfix-truncated-template-cached.)
+macro_rules! s_ipfix_template {
+    ($name:ident, $fc:expr, $ent:expr, $pad:expr) => {
+        #[kani::proof]
+        #[kani::stub(core::fmt::write, no_fmt)]
+        fn $name() {
+            const FC: usize = $fc;
+            const ENT: [bool; 2] = $ent;
+            const PAD: usize = $pad;
+            const RL: usize = 4 + (if FC >= 1 { if ENT[0] { 8 } else { 4 } } else { 0 }) + (if FC >= 2 { if ENT[1] { 8 } else { 4 } } else { 0 });
+            const B: usize = RL + PAD;
+            const N: usize = 4 + B + 1;
+            let mut p = IPFixParser::default();
+            let c0: u16 = kani::any();
+            let cf = any_field(kani::any());
+            let cf_copy = cf.clone();
+            p.templates.insert(c0, Template { template_id: c0, field_count: 1, fields: vec![cf], padding: vec![] });
+            let mut buf: [u8; N] = kani::any();
+            buf[0] = 0;
+            buf[1] = 2;
+            put16(&mut buf, 2, (4 + B) as u16);
+            put16(&mut buf, 6, FC as u16);
+            let mut o = [0usize; 2];
+            let mut pos = 8;
+            let mut j = 0;
+            while j < FC {
+                o[j] = pos;
+                if ENT[j] {
+                    buf[pos] |= 0x80;
+                    pos += 8;
+                } else {
+                    buf[pos] &= 0x7f;
+                    pos += 4;
                 }
-                _ => assert!(false),
+                j += 1;
             }
+            let tid = be16(&buf, 4);
+            let valid = (FC >= 1 && be16(&buf, o[0] + 2) > 0) || (FC >= 2 && be16(&buf, o[1] + 2) > 0);
+            let r = FlowSet::parse(&buf, &mut p);
+            match &r {
+                Ok((rem, fs)) => {
+                    assert!(valid);
+                    assert!(rem.len() == 1);
+                    assert!(fs.header.header_id == 2 && fs.header.length == (4 + B) as u16);
+                    match &fs.body {
+                        FlowSetBody::Template(t) => {
+                            assert!(t.template_id == tid);
+                            assert!(t.field_count as usize == FC);
+                            assert!(t.fields.len() == FC);
+                            let mut j = 0;
+                            while j < FC {
+                                assert!(field_matches(&t.fields[j], &buf, o[j]));
+                                j += 1;
+                            }
+                            assert!(t.padding.len() == PAD);
+                            let mut i = 0;
+                            while i < PAD {
+                                assert!(t.padding[i] == buf[4 + RL + i]);
+                                i += 1;
+                            }
+                            // cache: new definition replaces / is added; the other entry is untouched
+                            let ct = p.templates.get(&tid).unwrap();
+                            assert!(*ct == *t);
+                            if c0 != tid {
+                                let old = p.templates.get(&c0).unwrap();
+                                assert!(old.template_id == c0 && old.fields.len() == 1 && old.fields[0] == cf_copy);
+                                assert!(p.templates.len() == 2);
+                            } else {
+                                assert!(p.templates.len() == 1);
+                            }
+                            kani::cover!(c0 == tid);
+                            kani::cover!(c0 != tid);
+                        }
+                        _ => assert!(false),
+                    }
+                }
+                Err(_) => {
+                    // RFC 7011 has no "all lengths zero" rule; the library refuses such
+                    // templates.  Not demanded either way by C05; what is demanded (C06):
+                    // a refused set leaves the cache as it was.
+                    assert!(!valid);
+                    assert!(p.templates.len() == 1);
+                    let old = p.templates.get(&c0).unwrap();
+                    assert!(old.fields.len() == 1 && old.fields[0] == cf_copy);
+                }
+            }
+            assert!(p.options_templates.len() == 0);
+            core::mem::forget(r);
+            core::mem::forget(p);
         }
-        Err(_) => {
-            // RFC 7011 has no "all lengths zero" rule; the library refuses such templates.
-            // Not demanded either way by C05; what is demanded (C06): a refused set leaves
-            // the cache as it was.
-            assert!(!valid);
-            assert!(p.templates.len() == 1);
-            let old = p.templates.get(&c0).unwrap();
-            assert!(old.fields.len() == 1 && old.fields[0] == cf_copy);
-            kani::cover!(fc == 1);
-        }
-    }
-    assert!(p.options_templates.len() == 0);
-    core::mem::forget(r);
-    core::mem::forget(p);
+    };
 }
+s_ipfix_template!(s_ipfix_template_1p_pad3, 1, [false, false], 3);
+s_ipfix_template!(s_ipfix_template_2p, 2, [false, false], 0);
+s_ipfix_template!(s_ipfix_template_e_p, 2, [true, false], 2);
+s_ipfix_template!(s_ipfix_template_p_e, 2, [false, true], 0);
 
 /// Known-finding witness C05-multi-record-template-set: two template records in one set.
 #[kani::proof]
@@ -175,69 +186,78 @@ fn s_ipfix_template_short_record_kf() {
     core::mem::forget(p);
 }
 
-/// S/T: options-template set (id 3), one record, <= 2 plain/enterprise specifiers.
-#[kani::proof]
-#[kani::stub(core::fmt::write, no_fmt)]
-fn s_ipfix_options_template() {
-    const B: usize = 6 + 8 + 4 + 2;
-    const N: usize = 4 + B;
-    let mut p = IPFixParser::default();
-    let mut buf: [u8; N] = kani::any();
-    buf[0] = 0;
-    buf[1] = 3;
-    let len = be16(&buf, 2);
-    kani::assume(len >= 10 && (len as usize) <= N);
-    let body = (len - 4) as usize;
-    let fc = be16(&buf, 6) as usize;
-    let sc = be16(&buf, 8) as usize;
-    kani::assume(fc <= 2 && sc <= fc); // RFC 7011: scope count <= field count
-    let mut rl = 6;
-    let mut o = [0usize; 2];
-    let mut j = 0;
-    while j < 2 {
-        if j < fc {
-            o[j] = 4 + rl;
-            rl += if buf[4 + rl] >= 128 { 8 } else { 4 };
-        }
-        j += 1;
-    }
-    kani::assume(rl <= body && body - rl < 4);
-    let tid = be16(&buf, 4);
-    let valid = (fc >= 1 && be16(&buf, o[0] + 2) > 0) || (fc >= 2 && be16(&buf, o[1] + 2) > 0);
-    let r = FlowSet::parse(&buf, &mut p);
-    match &r {
-        Ok((rem, fs)) => {
-            assert!(valid);
-            assert!(rem.len() == N - 4 - body);
-            match &fs.body {
-                FlowSetBody::OptionsTemplate(t) => {
-                    assert!(t.template_id == tid);
-                    assert!(t.field_count as usize == fc && t.scope_field_count as usize == sc);
-                    assert!(t.fields.len() == fc);
-                    if fc >= 1 {
-                        assert!(field_matches(&t.fields[0], &buf, o[0]));
-                    }
-                    if fc >= 2 {
-                        assert!(field_matches(&t.fields[1], &buf, o[1]));
-                    }
-                    assert!(t.padding.len() == body - rl);
-                    let ct = p.options_templates.get(&tid).unwrap();
-                    assert!(*ct == *t);
-                    assert!(p.options_templates.len() == 1);
-                    kani::cover!(fc == 2 && sc == 1);
+/// S/T: options-template set (id 3), one record; shapes written as above plus the scope count.
+macro_rules! s_ipfix_options_template {
+    ($name:ident, $fc:expr, $sc:expr, $ent:expr, $pad:expr) => {
+        #[kani::proof]
+        #[kani::stub(core::fmt::write, no_fmt)]
+        fn $name() {
+            const FC: usize = $fc;
+            const SC: usize = $sc;
+            const ENT: [bool; 2] = $ent;
+            const PAD: usize = $pad;
+            const RL: usize = 6 + (if FC >= 1 { if ENT[0] { 8 } else { 4 } } else { 0 }) + (if FC >= 2 { if ENT[1] { 8 } else { 4 } } else { 0 });
+            const B: usize = RL + PAD;
+            const N: usize = 4 + B;
+            let mut p = IPFixParser::default();
+            let mut buf: [u8; N] = kani::any();
+            buf[0] = 0;
+            buf[1] = 3;
+            put16(&mut buf, 2, (4 + B) as u16);
+            put16(&mut buf, 6, FC as u16);
+            put16(&mut buf, 8, SC as u16);
+            let mut o = [0usize; 2];
+            let mut pos = 10;
+            let mut j = 0;
+            while j < FC {
+                o[j] = pos;
+                if ENT[j] {
+                    buf[pos] |= 0x80;
+                    pos += 8;
+                } else {
+                    buf[pos] &= 0x7f;
+                    pos += 4;
                 }
-                _ => assert!(false),
+                j += 1;
             }
+            let tid = be16(&buf, 4);
+            let valid = (FC >= 1 && be16(&buf, o[0] + 2) > 0) || (FC >= 2 && be16(&buf, o[1] + 2) > 0);
+            let r = FlowSet::parse(&buf, &mut p);
+            match &r {
+                Ok((rem, fs)) => {
+                    assert!(valid);
+                    assert!(rem.len() == 0);
+                    match &fs.body {
+                        FlowSetBody::OptionsTemplate(t) => {
+                            assert!(t.template_id == tid);
+                            assert!(t.field_count as usize == FC && t.scope_field_count as usize == SC);
+                            assert!(t.fields.len() == FC);
+                            let mut j = 0;
+                            while j < FC {
+                                assert!(field_matches(&t.fields[j], &buf, o[j]));
+                                j += 1;
+                            }
+                            assert!(t.padding.len() == PAD);
+                            let ct = p.options_templates.get(&tid).unwrap();
+                            assert!(*ct == *t);
+                            assert!(p.options_templates.len() == 1);
+                        }
+                        _ => assert!(false),
+                    }
+                }
+                Err(_) => {
+                    assert!(!valid);
+                    assert!(p.options_templates.len() == 0);
+                }
+            }
+            assert!(p.templates.len() == 0);
+            core::mem::forget(r);
+            core::mem::forget(p);
         }
-        Err(_) => {
-            assert!(!valid);
-            assert!(p.options_templates.len() == 0);
-        }
-    }
-    assert!(p.templates.len() == 0);
-    core::mem::forget(r);
-    core::mem::forget(p);
+    };
 }
+s_ipfix_options_template!(s_ipfix_options_template_2_1, 2, 1, [false, false], 2);
+s_ipfix_options_template!(s_ipfix_options_template_1_1_e, 1, 1, [true, false], 0);
 
 // exact-on-domain D models: every cached field is fixed-length >= 8 and the body has at
 // most 7 bytes: the first field read fails, so the real Data/OptionsData::parse return Err.
